@@ -230,7 +230,7 @@ class ShapeSystem(System):
         dig = []
 
         def bad(kind, m, exp, got, file, what):
-            delta = (got - exp) if isinstance(got, int) and isinstance(exp, int) else str(got)
+            delta = (got - exp) if isinstance(got, int) and isinstance(exp, int) else ("wrong-source" if what.endswith("source") else str(got))
             # narrow classification for the two suite-pinned deviations: covered only if the delta is exactly the sum of their known deltas
             causes = []
             if file is not None:
